@@ -66,6 +66,11 @@ def gen_h2_spec(r: random.Random, flavor: str) -> dict:
         reqs = 1
         resp_delay = 0.1
         kinds.append("defer")
+        # the dependency needs two streams open at once: a server that also lowers its limit to one stream has wedged
+        # itself, whatever the client does
+        for act in actions:
+            if act["do"] == "settings" and int(act["settings"]["3"]) < 2:
+                act["settings"]["3"] = 2
     spec = gen_spec(r, flavor, proto="h2", proxy=None, n_origins=1, max_connections=1, n_callers=n, reqs=reqs, snipes=False,
                     behaviours=["read", "read", "read", "partial", "head-only", "post"], fault_ops=[], latency="zero",
                     think=r.choice([0.0, 0.0, 0.2]) if "defer" not in script else 0.0, pool_timeout=None, resp_delay=resp_delay,
